@@ -524,10 +524,12 @@ func VerifyObjectCopyAccess(ctx context.Context, be backend.Backend, copySource 
 	if err := VerifyAccess(ctx, be, opts); err != nil {
 		return err
 	}
-	// Verify source bucket access
-	srcBucket, srcObject, found := strings.Cut(copySource, "/")
-	if !found {
-		return s3err.GetAPIError(s3err.ErrInvalidCopySource)
+	// Verify source bucket access: for the object the backend will read,
+	// i.e. without a leading slash and without the "?versionId=" suffix
+	// (a policy statement on the key would not match the suffixed name)
+	srcBucket, srcObject, _, err := backend.ParseCopySource(copySource)
+	if err != nil {
+		return err
 	}
 
 	// Get source bucket ACL
